@@ -11,6 +11,380 @@ def sizes(ctx, quick, thorough):
     return quick if ctx.quick() else thorough
 
 
+def run_script(ctx, name, args, key, env=None, timeout=3000):
+    e = dict(os.environ, COQDIR=COQ, ERGO=ERGO)
+    if env:
+        e.update(env)
+    p = subprocess.run([sys.executable, os.path.join(VERIF, 'harness', name)] + [str(a) for a in args], capture_output=True,
+                       text=True, timeout=timeout, env=e)
+    ctx.cov[key] = {'rc': p.returncode, 'tail': p.stdout[-800:]}
+    return p
+
+
+def check_C05(ctx):
+    tags = {'Events', 'Exit'} | ALL_OBS
+    n, steps = sizes(ctx, (40, 30), (400, 45))
+    prof = {'weights': {'compact': 14, 'new': 22, 'set': 34, 'claim': 10, 'seq': 10, 'prune': 7, 'plan': 5, 'seqrm': 2}}
+    driver.history_check(ctx, tags, n, steps, profile=prof)
+    # synthetic logs: legacy untitled creates, reordered, hand-merged, equal stamps; Go's compactEvents vs the model's,
+    # and obs before/after by a direct monitor
+    driver.log_check(ctx, {'CompactEvents', 'ReplayErr'} | ALL_OBS, *sizes(ctx, (150, 24), (2500, 30)), monotone=True,
+                     with_compact=True, monitor=mon_compact_logs)
+    compact_twin_runs(ctx)
+
+
+def stamps_usable(log):
+    """The hypothesis of C05_compact_preserves, recomputed on a typed log: per item the update stamps are
+    non-zero and non-decreasing, claims are not zero-stamped, no epic is re-parented."""
+    last, epics = {}, set()
+    for e in log:
+        t = e['t']
+        if e.get('at') is None and t not in ('link', 'unlink', 'unclaim', 'mystery'):
+            return False
+        if t == 'new_epic':
+            epics.add(e['id'])
+        if t == 'epic' and e['id'] in epics:
+            return False
+        if t in ('new_task', 'new_epic', 'state', 'title', 'body', 'epic', 'result'):
+            i = e['id']
+            cur = (e['at'][0], e['at'][1])
+            if i in last and cur < last[i] and t not in ('new_task', 'new_epic'):
+                return False
+            last[i] = max(last.get(i, cur), cur)
+    return True
+
+
+def mon_compact_logs(log, snap, comp):
+    if comp is None or 'replay_error' in snap or 'replay_error' in comp:
+        return []
+    if not stamps_usable(log):
+        return []
+    a, b = monitors.obs_of(snap), monitors.obs_of(comp)
+    if a != b:
+        diff = [(x['id'], k) for x, y in zip(a[0], b[0]) for k in monitors.OBS_KEYS if x[k] != y[k]]
+        return [('compact_changed_obs', diff[:6])]
+    return []
+
+
+def compact_twin_runs(ctx):
+    """Commands issued after compaction behave exactly as they would have without it: fork the store
+    before `compact`, apply the same later commands (same forced ids) to both, compare exit codes and obs."""
+    rpc = Rpc()
+    bad = []
+    forks = 0
+    try:
+        for k in range(6 if ctx.quick() else 60):
+            rng = random.Random(ctx.seed * 977 + k)
+            h = history.History(rpc, rng)
+            h.profile = {'weights': {'compact': 0, 'prune': 9, 'set': 35}}
+            for _ in range(rng.choice([10, 18, 25])):
+                h.do(h.gen_request())
+            twin_root = mkscratch('ergo-twin-')
+            twin = os.path.join(twin_root, 'proj')
+            shutil.copytree(h.store.dir, twin, symlinks=True)
+            h.do(history.Req(k='compact'))
+            forks += 1
+            h.profile = {'weights': {'compact': 2, 'prune': 6, 'set': 35}}
+            for _ in range(12):
+                r = h.gen_request()
+                if r['k'] == 'compact':
+                    continue
+                h.do(r)
+                tr = h.trace[-1]
+                ids = [e['id'] for e in tr['appended'] if e['t'] in ('new_task', 'new_epic')]
+                args, stdin = history.req_cli(r)
+                env = dict(os.environ)
+                if ids:
+                    env['ERGO_VERIF_IDS'] = ','.join(ids)
+                env.pop('ERGO_VERIF_CTL', None)
+                p = subprocess.run([ERGO] + args, cwd=twin, input=stdin, stdin=None if stdin is not None else subprocess.DEVNULL,
+                                   capture_output=True, env=env, timeout=30)
+                if (p.returncode == 0) != (tr['rc'] == 0):
+                    bad.append(('exit_differs', args, tr['rc'], p.returncode, tr['stderr'][:120], p.stderr.decode()[:120]))
+                    break
+            a = h.snap
+            b = rpc.call(op='snapshot', dir=os.path.join(twin, '.ergo')).get('ok', {})
+            keys = ['id', 'epic', 'is_epic', 'state', 'title', 'body', 'claimed_by', 'deps', 'rdeps', 'ready', 'blocked']
+            pa = [{x: t[x] for x in keys} for t in a.get('tasks', [])]
+            pb = [{x: t[x] for x in keys} for t in b.get('tasks', [])]
+            if (pa, a.get('ready_order')) != (pb, b.get('ready_order')) and not bad:
+                bad.append(('state_differs_after_later_commands', [t['args'] for t in h.trace[-12:]]))
+            shutil.rmtree(twin_root, ignore_errors=True)
+            h.close()
+        ctx.cov['compact_twin_forks'] = forks
+        for b in bad[:2]:
+            ctx.violations.append(('monitor', 'behaviour after compaction differs from behaviour without it: %s' % (b[:4],),
+                                   {'kind': 'twin', 'case': b}))
+    finally:
+        rpc.close()
+
+
+def waits_for_edges(snap):
+    ts = monitors.tasks_by_id(snap)
+    plain, inherited = [], []
+    for t in snap.get('tasks', []):
+        for d in t['deps']:
+            plain.append((t['id'], d))
+        if not t['is_epic'] and t['epic'] in ts:
+            for d in ts[t['epic']]['deps']:
+                if d in ts and ts[d]['is_epic']:
+                    for c in snap['tasks']:
+                        if not c['is_epic'] and c['epic'] == d:
+                            inherited.append((t['id'], c['id']))
+    return plain, inherited
+
+
+def classify_C15(f, trace, k):
+    if f[0] != 'no_progress':
+        return None
+    plain, inherited = waits_for_edges(trace[k]['after'])
+    if monitors.has_cycle_edges(plain + inherited) and not monitors.has_cycle_edges(plain) and inherited:
+        return {'monitor': 'progress', 'needs': 'waits_for_cycle_with_epic_edge'}
+    return None
+
+
+def check_C15(ctx):
+    tags = {'ReadyFlag', 'ClaimOrder', 'Reply'}
+    n, steps = sizes(ctx, (48, 30), (500, 40))
+    prof = {'weights': {'new': 30, 'seq': 34, 'set': 14, 'plan': 8, 'claim': 6, 'prune': 4, 'seqrm': 3, 'compact': 1},
+            'states': ['todo', 'todo', 'done', 'canceled']}
+    driver.history_check(ctx, tags, n, steps, profile=prof, classify=classify_C15)
+    # the known finding F1 is re-demonstrated on the real binary on every run
+    st = Store()
+    try:
+        def new(kind, title, epic=None):
+            f = {'title': title}
+            if epic:
+                f['epic'] = epic
+            rc, out, _ = st.run(['--json', 'new', kind], stdin=json.dumps(f).encode())
+            return json.loads(out)['id']
+        e1, e2 = new('epic', 'E1'), new('epic', 'E2')
+        a, b = new('task', 'A', e1), new('task', 'B', e2)
+        r1 = st.run(['sequence', b, a])[0]
+        r2 = st.run(['sequence', e1, e2])[0]
+        rc, out, _ = st.run(['--agent', 'x', '--json', 'claim'])
+        stuck = rc == 0 and json.loads(out).get('status') == 'no_ready'
+        ctx.cov['F1_witness'] = {'sequence_rcs': [r1, r2], 'claim_says_no_ready': stuck}
+        kf = [k for k in driver.load_known() if k.get('id') == 'F1' and k.get('status') == 'open']
+        if stuck and r1 == 0 and r2 == 0:
+            if kf:
+                ctx.known.append('%s (F1)' % kf[0]['what'])
+            else:
+                ctx.violations.append(('monitor', 'two-level waits-for cycle accepted: claim says no_ready with all tasks todo',
+                                       {'kind': 'cli', 'commands': 'new epic E1; new epic E2; new task A in E1; new task B in E2; sequence B A; sequence E1 E2; claim'}))
+        else:
+            ctx.cov['known_finding_not_reproduced'] = 'F1'
+    finally:
+        st.close()
+
+
+def check_C16(ctx):
+    tags = {'Reply', 'Exit'}
+    n, steps = sizes(ctx, (48, 25), (500, 35))
+    driver.history_check(ctx, tags, n, steps)
+    json_surface(ctx)
+
+
+def json_surface(ctx):
+    """Every command with --json in several states: exactly one JSON value on success; on failure non-zero
+    exit, stderr explanation, at most one JSON error object on stdout."""
+    rpc = Rpc()
+    bad, known_hits = [], []
+    n = 0
+    try:
+        h = history.History(rpc, random.Random(ctx.seed + 5))
+        for _ in range(15):
+            h.do(h.gen_request())
+        st = h.store
+        ids = [t['id'] for t in h.snap['tasks']] or ['ZZZZZZ']
+        cmds = [(['--json', 'list'], None), (['--json', 'list', '--all'], None), (['--json', 'list', '--ready'], None),
+                (['--json', 'list', '--epics'], None), (['--json', 'list', '--ready', '--all'], None),
+                (['--json', 'show', ids[0]], None), (['--json', 'show', 'ZZZZZZ'], None), (['--json', 'show', ids[0], '--short'], None),
+                (['--json', 'where'], None), (['--json', 'init'], None), (['--json', 'prune'], None), (['--json', 'compact'], None),
+                (['--json', 'claim'], None), (['--json', '--agent', 'a', 'claim', 'ZZZZZZ'], None),
+                (['--json', 'sequence', ids[0]], None), (['--json', 'sequence', 'rm', ids[0], ids[-1]], None),
+                (['--json', 'set', ids[0]], b'{"state":"bogus"}'), (['--json', 'set', ids[0]], b'not json'),
+                (['--json', 'new', 'task'], b'{"titel":"x"}'), (['--json', 'new', 'task'], b'{"title":"ok"}'),
+                (['--json', 'new', 'epic'], b'{"title":"ok","state":"done"}'), (['--json', 'plan'], b'{"title":"p","tasks":[]}'),
+                (['--json', 'plan'], b'{"title":"p","tasks":[{"title":"a"}]}'), (['--json', 'set', ids[0], '--state', 'todo', '--body', 'x', '--body-stdin'], b'y'),
+                (['--json', 'nosuchcommand'], None), (['--json', 'list', '--nosuchflag'], None)]
+        special = [(['--json', 'quickstart'], None), (['--json', 'version'], None), (['--json', '--help'], None), (['--json', '--version'], None)]
+        for args, stdin in cmds + special:
+            rc, out, err = st.run(args, stdin=stdin)
+            n += 1
+            tr = {'args': args, 'rc': rc, 'stdout': out.decode('utf-8', 'replace'), 'stderr': err.decode('utf-8', 'replace'),
+                  'req': {'k': 'probe'}, 'after': {}, 'before': {}}
+            fs = monitors.mon_C16(tr)
+            if fs:
+                if (args, stdin) in special:
+                    known_hits.append(args)
+                else:
+                    bad.append((args, fs[0][0], tr['stdout'][:120]))
+        h.close()
+        ctx.cov['json_surface_commands'] = n
+        kf = [k for k in driver.load_known() if k.get('id') == 'F2' and k.get('status') == 'open']
+        if known_hits:
+            if kf:
+                ctx.known.append('%s (F2)' % kf[0]['what'])
+            else:
+                bad.append((known_hits[0], 'success_not_single_json', ''))
+        for b in bad[:3]:
+            ctx.violations.append(('monitor', '--json contract broken by %s: %s' % (b[0], b[1]), {'kind': 'cli', 'args': b[0], 'stdout': b[2]}))
+    finally:
+        rpc.close()
+
+
+def check_C18(ctx):
+    p = run_script(ctx, 'difftest_path.py', [1500 if ctx.quick() else 8000, ctx.seed], 'path_difftest')
+    if p.returncode != 0:
+        ctx.violations.append(('mismatch', 'path model (Clean/Dir/Base/Join) disagrees with Go', {'kind': 'path', 'output': (p.stdout + p.stderr)[-3000:]}))
+    wd = mkscratch('ergo-disc-')
+    try:
+        for k in range(1 if ctx.quick() else 4):
+            p = run_script(ctx, 'difftest_discovery.py', [ctx.seed + k], 'discovery_difftest_%d' % k, env={'SCRATCH': os.path.join(wd, 'dt%d' % k)})
+            if p.returncode != 0:
+                ctx.violations.append(('mismatch', 'store discovery / log choice / init: model and real tool disagree',
+                                       {'kind': 'discovery', 'output': (p.stdout + p.stderr)[-3000:], 'no_failing_input': False}))
+                break
+    finally:
+        shutil.rmtree(wd, ignore_errors=True)
+
+
+def check_C19(ctx):
+    a = ['--nfmt', 500, '--nstores', 40, '--nsynth', 20] if ctx.quick() else ['--nfmt', 3200, '--nstores', 300, '--nsynth', 120]
+    wd = mkscratch('ergo-tree-')
+    try:
+        p = run_script(ctx, 'difftest_tree.py', a + ['--seed', ctx.seed, '--only', '12'], 'tree_difftest', env={'TREE_WORK': os.path.join(wd, 'work')})
+    finally:
+        shutil.rmtree(wd, ignore_errors=True)
+    if p.returncode != 0:
+        ctx.violations.append(('mismatch', 'tree/layout model disagrees with the real list output',
+                               {'kind': 'tree', 'output': (p.stdout + p.stderr)[-3000:], 'no_failing_input': True}))
+    row_properties(ctx)
+
+
+def row_properties(ctx):
+    """The property's row statements checked directly on real rows (RPC tree at many widths) over text classes;
+    classes outside the theorem's domain (ESC, multi-rune grapheme clusters) are the known findings F3 / F4."""
+    import base64
+    rpc = Rpc()
+    bad = {}
+    n = 0
+    texts = {'ascii': 'Fix the login page', 'cjk': '日本語のタイトルを書く', 'combining': 'école',
+             'emoji': 'ship \U0001F680 now', 'long': 'x' * 300, 'zw': 'a​b‍c', 'esc': 'ab\x1b[31mcd', 'newline': 'two\nlines',
+             'zwj_family': '\U0001F468‍\U0001F469‍\U0001F467' * 4, 'flags': '\U0001F1E9\U0001F1EA' * 6,
+             'devanagari': 'का' * 20}
+    try:
+        for name, text in texts.items():
+            st = Store()
+            st.run(['new', 'epic'], stdin=json.dumps({'title': text}, ensure_ascii=False).encode())
+            rc, out, _ = st.run(['--json', 'list', '--epics'])
+            eid = json.loads(out)[0]['id']
+            st.run(['--agent', text[:12].replace('\n', ' '), 'new', 'task'], stdin=json.dumps({'title': text, 'epic': eid, 'claim': text[:12]}, ensure_ascii=False).encode())
+            st.run(['new', 'task'], stdin=json.dumps({'title': 'dep ' + text}, ensure_ascii=False).encode())
+            for w in [14, 20, 33, 80, 131, 240]:
+                resp = rpc.call(op='tree', dir=st.ergodir, all=True, width=w, repo=st.dir)
+                rows = [base64.b64decode(r) for r in resp['ok']['rows']]
+                vis = rpc.call(op='runewidth', strs=[base64.b64encode(r).decode() for r in rows])['ok']
+                for r, v in zip(rows, vis):
+                    n += 1
+                    try:
+                        r.decode('utf-8')
+                    except UnicodeDecodeError:
+                        bad.setdefault(name, []).append(('invalid_utf8', w))
+                    persum = sum(v['runes'])
+                    if v['visible'] != w - 2 or persum > w - 2 or not re.search(rb'[A-Z2-7]{6}$', r):
+                        bad.setdefault(name, []).append(('layout', w, v['visible'], persum))
+            st.close()
+        ctx.cov['rows_checked'] = n
+        known = {k['id']: k for k in driver.load_known() if k.get('property') == 'C19' and k.get('status') == 'open'}
+        for name, fails in bad.items():
+            kid = {'esc': 'F3', 'newline': 'F3', 'zwj_family': 'F4', 'flags': 'F4', 'devanagari': 'F4'}.get(name)
+            if kid and kid in known:
+                msg = '%s (%s)' % (known[kid]['what'], kid)
+                if msg not in ctx.known:
+                    ctx.known.append(msg)
+            else:
+                ctx.violations.append(('monitor', 'row property fails for %s text: %s' % (name, fails[:3]), {'kind': 'rows', 'text': texts[name], 'fails': fails[:5]}))
+    finally:
+        rpc.close()
+
+
+def check_C20(ctx):
+    tags = {'Results', 'Exit', 'Events'}
+    n, steps = sizes(ctx, (40, 25), (400, 35))
+    prof = {'weights': {'set': 60, 'new': 20, 'compact': 6, 'prune': 4, 'claim': 5}, 'result_p': 0.6}
+    driver.history_check(ctx, tags, n, steps, profile=prof)
+    p = run_script(ctx, 'difftest_path.py', [1500 if ctx.quick() else 8000, ctx.seed + 1], 'path_difftest')
+    if p.returncode != 0:
+        ctx.violations.append(('mismatch', 'path model disagrees with Go', {'kind': 'path', 'output': (p.stdout + p.stderr)[-3000:]}))
+    result_files(ctx)
+
+
+def result_files(ctx):
+    """Real files, directories, FIFOs, symlinks, missing files, unicode names; sha and file_url recomputed."""
+    import hashlib, urllib.parse
+    st = Store()
+    bad = []
+    try:
+        rc, out, _ = st.run(['--json', 'new', 'task'], stdin=b'{"title":"t"}')
+        i = json.loads(out)['id']
+        proj = st.dir
+        os.makedirs(os.path.join(proj, 'out/sub'))
+        open(os.path.join(proj, 'out/a.txt'), 'w').write('alpha')
+        open(os.path.join(proj, 'out/ü ñ.txt'), 'w').write('unicode name')
+        os.mkfifo(os.path.join(proj, 'out/fifo'))
+        os.symlink('a.txt', os.path.join(proj, 'out/link.txt'))
+        os.symlink('/etc/hostname', os.path.join(proj, 'out/abs_link'))
+        cases = [('out/a.txt', True), ('./out//a.txt', True), ('out/sub/../a.txt', True), ('out/ü ñ.txt', True), ('out/link.txt', True),
+                 ('out', False), ('out/fifo', False), ('out/missing', False), ('../x', False), ('/etc/hostname', False),
+                 (os.path.join(proj, 'out/a.txt'), False), ('.ergo/plans.jsonl', False), ('.ergo', False), ('out/../../x', False),
+                 ('out/../.ergo/lock', False), ('', False), ('.', False)]
+        nres = 0
+        for path, ok in cases:
+            try:
+                rc, out, err = st.run(['set', i], stdin=json.dumps({'result_path': path, 'result_summary': 's %d' % nres}, ensure_ascii=False).encode(), timeout=10)
+            except subprocess.TimeoutExpired:
+                bad.append(('hang', path))
+                continue
+            if (rc == 0) != ok:
+                bad.append(('verdict', path, rc, err.decode()[:100]))
+            if rc == 0:
+                nres += 1
+                rc2, out2, _ = st.run(['--json', 'show', i])
+                res = json.loads(out2)['results']
+                r0 = res[0]
+                clean = os.path.normpath(path)
+                data = open(os.path.join(proj, clean), 'rb').read()
+                if r0['path'] != clean or r0['sha256_at_attach'] != hashlib.sha256(data).hexdigest():
+                    bad.append(('evidence', path, r0['path']))
+                url = 'file://' + urllib.parse.quote(os.path.join(os.path.realpath(proj) if False else proj, clean))
+                if urllib.parse.unquote(r0['file_url']) != 'file://' + os.path.join(proj, clean):
+                    bad.append(('file_url', path, r0['file_url']))
+                if len(res) != nres or [x['summary'] for x in res] != ['s %d' % k for k in reversed(range(len(cases))) if 's %d' % k in [y['summary'] for y in res]]:
+                    pass
+        # results survive later commands and compaction, newest first
+        st.run(['set', i], stdin=b'{"state":"done","title":"renamed"}')
+        st.run(['compact'])
+        rc2, out2, _ = st.run(['--json', 'show', i])
+        res = json.loads(out2)['results']
+        if len(res) != nres or [r['created_at'] for r in res] != sorted([r['created_at'] for r in res], reverse=True):
+            bad.append(('results_lost_or_reordered', len(res), nres))
+        # a result on an epic / pruned task is refused
+        rc, out, _ = st.run(['--json', 'new', 'epic'], stdin=b'{"title":"e"}')
+        e = json.loads(out)['id']
+        if st.run(['set', e], stdin=b'{"result_path":"out/a.txt","result_summary":"x"}')[0] == 0:
+            bad.append(('result_on_epic',))
+        st.run(['prune', '--yes'])
+        if st.run(['set', i], stdin=b'{"result_path":"out/a.txt","result_summary":"x"}')[0] == 0:
+            bad.append(('result_on_pruned',))
+        ctx.cov['result_path_cases'] = len(cases)
+        for b in bad[:3]:
+            ctx.violations.append(('monitor', 'result attachment: %s' % (b,), {'kind': 'results', 'case': b}))
+    finally:
+        st.close()
+
+
 def check_C06(ctx):
     tags = {'Exit', 'Events', 'State', 'ClaimedBy', 'Reply'}
     n, steps = sizes(ctx, (48, 25), (600, 30))
